@@ -126,6 +126,19 @@ CLAIMED = {
         note=BASE_NOTE + 'PARTIAL: uamiv (average/emissions/instant/airquality) only; lateral_boundary, landuse and the meteorological formats are not in this check yet. Idempotent rewrite is checked on the real code, not proved.',
         technique='Lean 4 proof (codec/stride bridge by induction over steps, species, layers; omega for date arithmetic) + model/implementation correspondence + round-trip oracle',
         design='§7 C08-C09-C13-C14'),
+    'C05': dict(
+        text=('Lean model of the process-wide handle table behind netcdf-backed file objects (open takes the lowest free id, '
+              'close is guarded by isopen, the finaliser calls close); theorem live_run: after ANY history of open / close / '
+              'close-again / drop events every open object owns a distinct live id, hence (open_objects_readable) every open '
+              'object is readable; unguarded_counterexample proves the same history breaks another file when close is not '
+              'guarded. The guard itself is regenerated from the source of netcdf.close by the translator. Correspondence: random '
+              'histories over real netCDF files in a fresh process, readability of every object after every event vs the model. '
+              'Purity and non-aliasing of every operation and query (deep snapshot before/after, numpy.shares_memory, write into '
+              'results then re-snapshot) are decided by observation on every run: the model is functional, so the theorem there is trivial. '
+              'One genuine defect repaired (fix: netcdf.close on a recycled id); two recorded findings (eval of a bare name aliases; legacy helpers return views).'),
+        note=BASE_NOTE + 'that real operations allocate fresh memory is observed, not proved; CPython finalisation order and the netCDF-C id allocator are modelled from observation.',
+        technique='Lean 4 proof (invariant by induction over event histories) + generated guard table + model/implementation correspondence + purity/aliasing oracle',
+        design='§7 C05'),
     'C06': dict(
         text=('Lean model of file arithmetic (pncbo), mask() and eval over nested arrays of optional rationals; theorems: '
               'for two arrays of one shape (any rank) every result cell is the operator applied to the operand cells at '
